@@ -1326,7 +1326,7 @@ class Interp1DAkima(InterpAlgorithmFixed):
         """
         Initialize table and subtables.
         """
-        super().__init__(grid, values, interp)
+        super().__init__(grid, values, interp, **kwargs)
         self.coeffs = {}
         self.vec_coeff = None
         self.k = 4
